@@ -152,9 +152,10 @@ def _ctor(name, sensors, gyr, acc, mag, kw):
     return cls(**d, **kw)
 
 
-def _call_update(obj, name, entry, q, sensors, g, a, m, kw):
+def _call_update(obj, name, entry, q, sensors, g, a, m, kw, dt=None):
+    extra = {} if dt is None else {'dt': dt}
     if name == 'AngularRate':
-        return getattr(obj, entry)(q, g, method=kw.get('method', 'closed'), order=kw.get('order', 1))
+        return getattr(obj, entry)(q, g, method=kw.get('method', 'closed'), order=kw.get('order', 1), **extra)
     args = [q]
     if 'g' in sensors:
         args.append(g)
@@ -162,7 +163,7 @@ def _call_update(obj, name, entry, q, sensors, g, a, m, kw):
         args.append(a)
     if 'm' in sensors:
         args.append(m)
-    return getattr(obj, entry)(*args)
+    return getattr(obj, entry)(*args, **extra)
 
 
 def _batch(name, arch, hist, kw, npseed, share=False):
@@ -173,7 +174,7 @@ def _batch(name, arch, hist, kw, npseed, share=False):
     return np.asarray(_ctor(name, sensors, gyr, acc, mag, kw if share else copy.deepcopy(kw)).Q, dtype=float)
 
 
-def _stream(name, arch, hist, kw, q0, npseed, obj=None, share=False, notes=None):
+def _stream(name, arch, hist, kw, q0, npseed, obj=None, share=False, notes=None, dt=None):
     sensors, entry = ARCHS[(name, arch)]
     gyr, acc, mag = hist if share else (x.copy() for x in hist)
     np.random.seed(npseed)
@@ -184,7 +185,7 @@ def _stream(name, arch, hist, kw, q0, npseed, obj=None, share=False, notes=None)
     for t in range(1, len(gyr)):
         qin = q if isinstance(q, np.ndarray) else np.array(q, dtype=float)
         before = qin.tobytes()
-        q = _call_update(obj, name, entry, qin, sensors, gyr[t], acc[t], mag[t], kw)      # rows are views of the caller's arrays
+        q = _call_update(obj, name, entry, qin, sensors, gyr[t], acc[t], mag[t], kw, dt=dt)      # rows are views of the caller's arrays
         if notes is not None and qin.tobytes() != before and not (q is qin):
             notes.append(f'q argument of call {t} modified in place')
         out.append(np.array(q, dtype=float).copy())
@@ -467,7 +468,114 @@ def o_single_frame(inp):
     return _guard(body, entry)
 
 
-ORACLES = {'stream': o_stream, 'repeat': o_repeat, 'interleave': o_interleave, 'single_frame': o_single_frame, 'order': o_order}
+def o_dt(inp):
+    """a recording sampled at hz: Filter(data, frequency=hz) (or Dt=1/hz) == a DEFAULT-rate Filter() streamed with dt=1/hz on every
+    call -- the per-call dt, not the object's Dt, must govern every step of update"""
+    name, arch = inp['filter'], inp['arch']
+    entry = f'{name}.{arch}'
+
+    def body():
+        kw = _kw(inp)
+        kw.pop('frequency', None); kw.pop('Dt', None)
+        hist = _hist_of(inp)
+        hz = float(inp['hz'])
+        rate = {'frequency': hz} if inp.get('how', 'frequency') == 'frequency' else {'Dt': 1.0 / hz}
+        B = _batch(name, arch, hist, {**kw, **rate}, inp.get('npseed', 0))
+        S = _stream(name, arch, hist, kw, B[0], inp.get('npseed', 0), dt=1.0 / hz)       # object built WITHOUT the sampling setting
+        if name == 'AngularRate':
+            import ahrs
+            S = np.asarray(ahrs.QuaternionArray(S), dtype=float)
+        if _same(B, S):
+            return None
+        t = int(np.argmax([not _same(B[i], S[i]) for i in range(len(B))]))
+        return {'tag': f'{entry}/dt-argument-vs-constructor-rate', 'observed': {'first_row': t, 'hz': hz, 'max_abs_diff': float(np.nanmax(np.abs(B - S)))},
+                'expected': 'bit-identical rows'}
+    return _guard(body, entry)
+
+
+# caller-owned array values for the array-valued constructor keywords (which keywords a class has is read off its source by the
+# extractor: signature of __init__ plus the names it looks up in **kwargs)
+KWVALUES = {
+    'q0': lambda: np.array([0.5, -0.5, 0.5, 0.5]),
+    'b0': lambda: np.array([0.01, -0.02, 0.03]),
+    'P': lambda: np.diag([0.010, 0.012, 0.011, 0.013]),
+    'noises': lambda: np.array([0.1, 0.2, 0.3]),
+    'weights': lambda: np.array([0.3, 1.2]),
+    'magnetic_ref': lambda: np.array([20.0, -2.0, 45.0]),
+    'magnetic_dip': lambda: np.array([0.0, 0.4, 0.0, 0.9]),
+    'process_noise_covariance': lambda: np.eye(4) * 2e-4,
+    'measurement_noise_covariance': lambda: np.eye(3) * 0.02,
+}
+KWSCALARS = {'frequency', 'Dt', 'gain', 'gain_imu', 'gain_marg', 'beta', 'k_P', 'k_I', 'kp', 'ki', 'frame', 'alpha', 'kappa', 'threshold',
+             'adaptive', 'order', 'method', 'representation', 'gyr', 'acc', 'mag'}
+_KWCACHE = {}
+
+
+def array_kwargs(name):
+    """array-valued constructor keywords of a filter class, from the CURRENT source"""
+    if name not in _KWCACHE:
+        import pyfx_c06 as fx
+        from vlib import core
+        rel = next(r for n, r, _, _ in FILTERS if n == name)
+        ex = fx.Extractor(fx.Package(os.path.join(core.REPO, 'ahrs')), rel, name)
+        names = ex.kwarg_names()
+        _KWCACHE[name] = ([k for k in names if k in KWVALUES], [k for k in names if k not in KWVALUES and k not in KWSCALARS])
+    return _KWCACHE[name]
+
+
+def o_kwshare(inp):
+    """array-valued constructor keywords passed as caller-owned arrays that are SHARED by several runs / instances: the arrays keep
+    their bytes and every run returns what it returns with fresh copies"""
+    name, arch = inp['filter'], inp['arch']
+    entry = f'{name}.{arch}'
+
+    def body():
+        names = inp['names']
+        vals0 = {k: KWVALUES[k]() for k in names}
+        base = _kw(inp)
+        hist = _hist_of(inp)
+        seed = inp.get('npseed', 0)
+        fresh = lambda: {**base, **{k: v.copy() for k, v in vals0.items()}}
+        B0 = _batch(name, arch, hist, fresh(), seed)
+        S0 = _stream(name, arch, hist, fresh(), B0[0], seed)
+        shared = {**base, **{k: v.copy() for k, v in vals0.items()}}
+
+        def bad():
+            return [k for k in names if not (isinstance(shared[k], np.ndarray) and shared[k].tobytes() == vals0[k].tobytes())]
+        for rep in (1, 2):
+            B1 = _batch(name, arch, hist, shared, seed, share=True)
+            if bad():
+                return {'tag': f'{entry}/constructor-keyword-mutated', 'observed': bad(), 'expected': 'caller arrays keep their bytes'}
+            if not _same(B1, B0):
+                return {'tag': f'{entry}/shared-keyword-array-changes-batch', 'observed': {'run': rep, 'names': names, 'max_abs_diff': float(np.nanmax(np.abs(B1 - B0)))},
+                        'expected': 0.0}
+        S1 = _stream(name, arch, hist, shared, B0[0], seed, share=True)
+        if bad():
+            return {'tag': f'{entry}/constructor-keyword-mutated', 'observed': bad(), 'expected': 'caller arrays keep their bytes'}
+        if not _same(S1, S0):
+            return {'tag': f'{entry}/shared-keyword-array-changes-stream', 'observed': {'names': names, 'max_abs_diff': float(np.nanmax(np.abs(S1 - S0)))}, 'expected': 0.0}
+        # two streaming instances built from the same keyword arrays, fed alternately
+        sensors, ent = ARCHS[(name, arch)]
+        kw2 = {k: v for k, v in shared.items() if k != 'q0'}
+        objs = [getattr(_F(), name)(**kw2), getattr(_F(), name)(**kw2)]
+        qs = [np.array(B0[0], float), np.array(B0[0], float)]
+        outs = [[qs[0].copy()], [qs[1].copy()]]
+        np.random.seed(seed)
+        for t in range(1, len(hist[0])):
+            for k in (0, 1):
+                qs[k] = _call_update(objs[k], name, ent, qs[k], sensors, hist[0][t], hist[1][t], hist[2][t], base)
+                outs[k].append(np.array(qs[k], float).copy())
+        for k in (0, 1):
+            if not _same(np.array(outs[k]), S0):
+                return {'tag': f'{entry}/instances-share-keyword-array', 'observed': {'instance': k, 'names': names,
+                        'max_abs_diff': float(np.nanmax(np.abs(np.array(outs[k]) - S0)))}, 'expected': 0.0}
+        if bad():
+            return {'tag': f'{entry}/constructor-keyword-mutated', 'observed': bad(), 'expected': 'caller arrays keep their bytes'}
+        return None
+    return _guard(body, entry)
+
+
+ORACLES = {'dt': o_dt, 'kwshare': o_kwshare, 'stream': o_stream, 'repeat': o_repeat, 'interleave': o_interleave, 'single_frame': o_single_frame, 'order': o_order}
 
 
 # ------------------------------------------------------------------------------------------ correspondence
@@ -732,6 +840,31 @@ def search(ctx, scale):
                         'N': NS[int(rng.integers(1, len(NS) - 1))], 'kind': ('generic', 'zerog')[j % 2]}
             inp = {'A': spec(a, 0), 'B': spec(b, 1), 'iseed': int(rng.integers(1 << 30)), 'same_data': bool((rep + len(a[0])) % 2)}
             ctx.check('interleave', inp, o_interleave(inp), nontrivial_key=('il', a, b, rep))
+    # per-call dt against the constructor's sampling setting, 25 / 50 / 200 Hz
+    for (name, arch) in cfgs:
+        for hi, hz in enumerate((25.0, 50.0, 200.0)):
+            for rep in range(scale):
+                o = OPTIONS[name]
+                kw = dict(o[(hi + rep) % len(o)])
+                if name == 'Madgwick' and not ({'gain', 'beta'} & set(kw)):
+                    kw['gain'] = 0.041                     # keeps the recorded gain finding out of this comparison
+                inp = {'filter': name, 'arch': arch, 'kw': kw, 'hz': hz, 'how': ('frequency', 'Dt')[(hi + rep + len(name)) % 2],
+                       'hseed': int(rng.integers(1 << 30)), 'N': NS[int(rng.integers(1, 6))], 'kind': ('generic', 'zero' + ZERO_OK[name], 'fast')[(hi + rep) % 3],
+                       'npseed': int(rng.integers(1 << 16))}
+                ctx.check('dt', inp, o_dt(inp), nontrivial_key=('dt', name, arch, hz, rep))
+    # every array-valued constructor keyword (found in the class source) as a caller-owned array shared by runs and instances
+    for (name, arch) in cfgs:
+        names, unknown = array_kwargs(name)
+        if unknown:
+            ctx.say(f'[search] {name}: constructor keywords without a value generator (not exercised as shared arrays): {unknown}')
+        combos = [[k] for k in names] + ([names] if len(names) > 1 else [])
+        for names_k in combos:
+            if 'magnetic_dip' in names_k and len(names_k) > 1:
+                names_k = [k for k in names_k if k != 'magnetic_dip'] if name != 'Fourati' else names_k
+            for rep in range(scale):
+                inp = {'filter': name, 'arch': arch, 'kw': {}, 'names': list(names_k), 'hseed': int(rng.integers(1 << 30)),
+                       'N': NS[int(rng.integers(1, 6))], 'kind': 'generic', 'npseed': int(rng.integers(1 << 16))}
+                ctx.check('kwshare', inp, o_kwshare(inp), nontrivial_key=('kw', name, arch, tuple(names_k), rep))
     # creation/run ORDER of different configurations, each compared with its run in a freshly imported package
     for (a, b) in _order_pairs(scale):
         def ospec(c):
